@@ -126,7 +126,6 @@ def main():
     finally:
         subprocess.call(["git", "-C", "/repo", "worktree", "remove", "--force", wt])
         shutil.rmtree(wt, ignore_errors=True)
-        subprocess.call(["git", "-C", VERIF, "checkout", "-q", "--", "evidence"])
     return 0
 
 
